@@ -3,11 +3,13 @@
 (* over the alphabet (plus the two non-positive values under log) up to      *)
 (* MaxLen, every transform kind per dimension; obs is an observation.        *)
 EXTENDS PolyTransform
-View == <<data, data2, lo, hi, ranged, kind, pos, parts>>
+View == <<data, data2, lo, hi, ranged, kind, lim2, pos, parts>>
 Rng13 == {<<1, 3>>}
 Rng3 == {<<1, 3>>, <<2, 2>>, <<3, 1>>}
 Alpha5 == {0, 1, 2, 3, 4}
 Alpha3 == {0, 2, 4}
+AlphaN == {-3, -2, -1, 0, 1}      \* around the range of negative decades
+RngN == {<<-2, 0>>}
 KindsAll == {"lin+", "lin-", "log"}
 KindsLog == {"log"}
 KindsML == {"lin-", "log"}
